@@ -48,7 +48,7 @@ def verify_and_check(sid, budget):
         rc, out = sh(["git", "apply", "--whitespace=nowarn", os.path.join(sd, "patch.diff")], cwd=copy)
         if rc != 0:
             raise SystemExit("patch does not apply: " + out)
-        rct, outt = sh([PY, "-m", "pytest", "-q", "-p", "no:cacheprovider", "--no-header"], cwd=copy, timeout=1200)
+        rct, outt = sh([PY, "-m", "pytest", "-q", "-p", "no:cacheprovider", "--no-header"], cwd=copy, timeout=1200, env=dict(os.environ, TMPDIR=d))
         m = re.search(r"(\d+) passed", outt)
         f = re.search(r"(\d+) failed", outt)
         rc1, out1 = sh([PY, "demo_seeded.py"], cwd=copy, timeout=600)
@@ -107,7 +107,7 @@ def check_benign(bid, budget):
         rc, out = sh(["git", "apply", "--whitespace=nowarn", os.path.join(sd, "patch.diff")], cwd=copy)
         if rc != 0:
             raise SystemExit("patch does not apply: " + out)
-        rct, outt = sh([PY, "-m", "pytest", "-q", "-p", "no:cacheprovider", "--no-header"], cwd=copy, timeout=1200)
+        rct, outt = sh([PY, "-m", "pytest", "-q", "-p", "no:cacheprovider", "--no-header"], cwd=copy, timeout=1200, env=dict(os.environ, TMPDIR=d))
         m = re.search(r"(\d+) passed", outt)
         f = re.search(r"(\d+) failed", outt)
         meta["verified"] = {"suite_passed": int(m.group(1)) if m else 0, "suite_failed": int(f.group(1)) if f else 0}
